@@ -73,10 +73,13 @@ CLAIMS = {
          "enum names are distinct identifiers (symbolic constant names with underscores); through dart.Generate on every named type skeleton of depth<=2: no file imports itself, every imported file exists, JSON helpers are defined once per file and "
          "every helper used is defined in the file or in an imported file. Two listed known findings (enum prefix trimming; helper of a basic type reached only through a named type of another file). Union dispatch is covered under C02.",
          "DESIGN.md section 5 (C06)", ""),
- "C15": ("Bug hunting only for the headline (termination and run-time well-formedness of the generated functions need executing them). Decided text clauses of randdata: the union function picks by rand.Intn(n) among exactly one call per member (symbolic member names); "
-         "the struct function assigns exactly the exported fields not tagged gomacro-data:\"ignore\" (symbolic names); fixed arrays are filled over their whole length and slices populated; the enum function picks among exactly the exported constants. "
-         "NOT decided: termination on self-recursive types, variation between calls, the C02 round trip.",
-         "DESIGN.md section 5 (C15)", ""),
+ "C15": ("Two layers. (1) The headline on a catalogue of REAL source packages, by EXECUTING the generated code: source text -> real go/parser + go/types -> analysis -> randdata.Generate -> the generated file, its source package and a file of assertions are "
+         "type-checked (go/types) and compiled to SSA (go/ssa) inside the engine and the entry function is interpreted in the symbolic path with math/rand as an input: for every outcome of every draw of range <= 16 (enum and union choices, slice lengths) rand<T>() "
+         "returns without panicking, enum components are exported constants (int and string enums with unexported members in the middle), union components are non-nil members with well-formed content (struct and slice members, an unexported member), slices are populated "
+         "with well-formed elements, non-square fixed arrays are filled, pointers are set, skipped and unexported fields keep their zero value. Draws of larger ranges (integers, runes) follow one concrete stream; floats and times are opaque. "
+         "One listed known finding: recursive types never terminate (shown by executing the generated code; natively a stack overflow). (2) Solver-decided text clauses on symbolic skeletons: the union function picks among exactly one call per member; the struct "
+         "function assigns exactly the exported fields not tagged gomacro-data:\"ignore\"; fixed arrays filled over their length; enum choices = exported constants. NOT decided: variation between calls, maps with more than one distinct key, the C02 round trip of random values.",
+         "DESIGN.md sections 0b (generated code executed) and 5 (C15)", ""),
  "C04": ("Bug hunting only for the headline (evaluation under PostgreSQL semantics is not encoded). Decided text clauses of generator/sql/json.go: for every type skeleton of depth<=2 every gomacro_validate_json_* function a body calls is defined exactly once and the "
          "column type's own validator is defined; slices accept null and fixed arrays have jsonb_array_length(data) = Len, non-arrays rejected, elements validated; maps accept null, require objects, validate values; the enum validator lists exactly the constant values "
          "(ints as written, strings single-quoted, symbolic string values); the struct validator rejects unknown keys and validates every exported field under its JSON key (symbolic names/tags). One listed known finding (validator name collisions across packages).",
@@ -85,10 +88,13 @@ CLAIMS = {
          "(through exported non-opaque fields, elements, keys, members) is declared exactly once and declared names are identifiers; slices and maps accept null; a fixed array of length 1..4 is a tuple alias with exactly Len elements, declared under the name references use; "
          "an enum lists every constant once with its value (symbolic names); two structs of two packages never share a declaration (one listed known finding: equal local names). Union alternatives are covered under C02.",
          "DESIGN.md section 5 (C03)", ""),
- "C02": ("Bug hunting only for the headline (the round trip itself runs through encoding/json's reflection, which is not encoded). Decided wire-format text clauses: the shadow struct generated for a struct holding a union keeps every field under its name, "
-         "with its type (the union replaced by <U>Wrapper) and its struct tag (symbolic names and json tags, with/without omitempty), and both methods copy every field; jsonForUnion uses the keys Kind/Data with one case per member and the Go member name as Kind; "
-         "the TypeScript union type, the Dart union routines and the SQL validator use the same Go member names under Kind/Data (symbolic member names). Text is compared up to white space.",
-         "DESIGN.md section 5 (C02)", ""),
+ "C02": ("Two layers. (1) The headline on one REAL source package, by EXECUTING the generated wrappers: source text -> real go/parser + go/types -> analysis -> gounions.Generate -> source, generated file and a checking file are type-checked and compiled to SSA "
+         "inside the engine; the checking function builds a value (one component varying at a time: union field with tag, second union sharing a member, refining interface, nested struct, named slice and named map of unions nil/empty/2 entries; members: struct, "
+         "unexported struct, named slice nil/non-nil, named map nil/non-nil, struct of two unions; symbolic integers 0..9 and strings of 0..2 bytes), marshals it, unmarshals the result and asserts deep equality (nil = empty), then reads the wire back: keys and encodings of "
+         "the other fields (tags, omitempty, '-'), every union value = {Kind: Go member name, Data: the member's own JSON}. encoding/json is the engine's model of it (tags, omitempty, embedded structs, Marshaler/Unmarshaler dispatch into the interpreted methods, RawMessage, "
+         "sorted map keys, null rules), validated against the real package on every sampled path by the native twin (which runs the same files with go run). (2) Solver-decided wire-format text clauses on symbolic skeletons: shadow struct keeps every field, type and tag; "
+         "one case per member with the Go member name as Kind; TypeScript, Dart and SQL validator use the same names. NOT decided: floats, []byte, time values, unicode escapes in symbolic strings, packages other than the catalogue.",
+         "DESIGN.md sections 0b (generated code executed) and 5 (C02)", ""),
  "C01": ("Two layers. (1) The headline itself on a catalogue of REAL source packages: source text -> real go/parser + go/types (inside the engine and natively) -> NewAnalysisFromFile -> gounions / randdata / sqlcrud Generate -> the generated file is "
          "type-checked together with its source package by the real go/types (unused/self imports, which the tool's goimports pass removes, are ignored; a stand-in pq package): 10 + 5 + 10 variants (tagged siblings, two unions, named slices/maps of unions, "
          "one-letter union name, imported types, byte/rune, string enum with unexported constant, unions with unexported member, recursive struct, foreign keys with UNIQUE/select key read from real doc comments, primary key spelled ID, guard, link table with nullable "
